@@ -6,7 +6,7 @@ import argparse, json, os, subprocess, sys, time
 V = os.path.dirname(os.path.dirname(os.path.abspath(__file__)))
 ap = argparse.ArgumentParser()
 ap.add_argument("--tier", default="quick"); ap.add_argument("--seeds", default="1,2,3"); ap.add_argument("--props", default="")
-ap.add_argument("--jobs", default="8"); ap.add_argument("--cases", default="")
+ap.add_argument("--jobs", default="8"); ap.add_argument("--cases", default=""); ap.add_argument("--frac", type=float, default=0.0)
 a = ap.parse_args()
 props = a.props.split(",") if a.props else json.load(open(os.path.join(V, "tools", "ready.json")))
 bad = 0
@@ -14,7 +14,12 @@ for seed in a.seeds.split(","):
     for p in props:
         t0 = time.time()
         env = dict(os.environ, VERIF_SEED=seed, VERIF_JOBS=a.jobs, VERIF_TIMEOUT=os.environ.get("VERIF_TIMEOUT", "20000"))
-        cmd = ["/venv/bin/python", "rv/run.py", p, "--tier", a.tier] + (["--cases", a.cases] if a.cases else [])
+        cases = a.cases
+        if a.frac:
+            sys.path.insert(0, V); sys.path.insert(0, "/repo")
+            import importlib
+            cases = str(max(8, int(importlib.import_module("rv.checks." + p.lower()).CASES[a.tier] * a.frac)))
+        cmd = ["/venv/bin/python", "rv/run.py", p, "--tier", a.tier] + (["--cases", cases] if cases else [])
         r = subprocess.run(cmd, cwd=V, env=env, capture_output=True, text=True)
         lines = r.stdout.splitlines()
         summ = [l for l in lines if l.startswith(p + " ")]
